@@ -283,3 +283,70 @@ def purity_check(ctx, rng, thunks, mon="purity", rounds=2, scribble=False):
                               {"call": desc, "first": first[int(i)] if not isinstance(first[int(i)], list) else first[int(i)][0],
                                "later": y if not isinstance(y, list) else y[0]})
     return not bad
+
+
+# ----------------------------------------------------------------------------------------------------------------------
+# representation twins: the same VALUES handed over in another legitimate numpy representation
+# ----------------------------------------------------------------------------------------------------------------------
+def rep_variants(a):
+    """(tag, array) pairs holding the same values as the float array `a` in other memory layouts / flags"""
+    a = np.asarray(a)
+    out = []
+    if a.ndim >= 1 and a.size:
+        big = np.full(a.shape[:-1] + (2 * a.shape[-1] + 1,), np.nan)
+        big[..., 1::2] = a
+        out.append(("strided_view", big[..., 1::2]))
+        out.append(("negative_stride", np.ascontiguousarray(a[..., ::-1])[..., ::-1]))
+    ro = np.array(a, copy=True)
+    ro.flags.writeable = False
+    out.append(("read_only", ro))
+    if a.ndim >= 2:
+        out.append(("fortran_order", np.asfortranarray(a)))
+    return out
+
+
+def representation_check(ctx, calls, mon="representation", rtol=1e-12, scalars=False):
+    """calls: list of (site, function, args tuple, kwargs dict). Each float-array argument is replaced in turn by a strided
+    view, a negatively strided view, a read-only copy and (2-D) a Fortran-ordered copy of the same values; the result must
+    be the result of the plain call (up to rtol * max|result|: BLAS may sum in another order for another stride), and the
+    argument must not be modified. An exception for another representation is counted, not judged (refusing a read-only
+    or strided array loudly is not a wrong value)."""
+    def flat(y):
+        if isinstance(y, (tuple, list)):
+            return [z for v in y for z in flat(v)]
+        return [np.asarray(y)]
+
+    for site, f, args, kwargs in calls:
+        base = flat(f(*[np.array(x, copy=True) if isinstance(x, np.ndarray) else x for x in args], **kwargs))
+        base = [np.array(b, copy=True) for b in base]
+        for i, x in enumerate(args):
+            if scalars and isinstance(x, float):
+                variants = [("numpy_float64", np.float64(x)), ("zero_dim_array", np.array(x))]
+            elif isinstance(x, np.ndarray) and x.dtype.kind == "f":
+                variants = rep_variants(x)
+            else:
+                continue
+            for tag, v in variants:
+                call = [np.array(z, copy=True) if isinstance(z, np.ndarray) else z for z in args]
+                call[i] = v
+                ctx.mon(mon)
+                try:
+                    y = flat(f(*call, **kwargs))
+                except Exception as e:
+                    ctx.count(f"representation_refused:{tag}:{type(e).__name__}")
+                    continue
+                bad = None
+                if len(y) != len(base):
+                    bad = "structure differs"
+                else:
+                    for b, z in zip(base, y):
+                        if b.shape != z.shape:
+                            bad = f"shape {z.shape} instead of {b.shape}"; break
+                        if b.size and not np.allclose(z, b, rtol=0, atol=rtol * (1.0 + float(np.max(np.abs(b[np.isfinite(b)]))) if np.any(np.isfinite(b)) else rtol), equal_nan=True):
+                            bad = f"max abs difference {float(np.nanmax(np.abs(z - b))):.3e}"; break
+                if bad:
+                    ctx.violation(site, "the same argument values in another array representation give another result",
+                                  {"representation": tag, "argument_index": i, "argument": np.asarray(x), "difference": bad,
+                                   "plain": base[0], "other": y[0] if y else None})
+                if not np.array_equal(np.asarray(v), np.asarray(x), equal_nan=True):
+                    ctx.violation(site, "the function modifies the array it was given", {"representation": tag, "argument_index": i, "before": np.asarray(x), "after": np.asarray(v)})
